@@ -221,6 +221,57 @@ def second_call_cases():
     return out
 
 
+# ---------------------------------------------------------------- higher-order helpers
+# helpers that take lambdas, return lambdas and hand lambdas on to further helpers (depth 2-3); the names of their
+# parameters and inner binders (x, a, v, w, f) are also used for the parameters of the passed lambda and of lambdas
+# written at the call site, so every capture / stale-map pattern between them is generated
+HO_LIB = [
+    ("apply_to", ["f", "v"], "f(v)", "def"),
+    ("twice", ["f", "v"], "f(f(v))", "def"),
+    ("adder", ["a"], "lambda x: x + a", "def"),
+    ("shift_by", ["v", "w"], "apply_to(lambda x: x + v, w)", "def"),
+    ("shift2", ["a", "w"], "twice(lambda v: shift_by(v, a), w)", "def"),
+    ("scale_all", ["s", "a"], "sum(s.Select(lambda x: x.pt * a))", "def"),
+    ("pick", ["a", "x"], "a - x", "def"),
+]
+HO_NAMES = ["e", "x", "a", "v", "w", "f"]
+HO_TEMPLATES = [
+    "lambda {P}: shift_by({P}.a, 10)",
+    "lambda {P}: shift_by(10, {P}.a)",
+    "lambda {P}: shift2({P}.a, {P}.b)",
+    "lambda {P}: adder({P}.a)(1)",
+    "lambda {P}: apply_to(adder({P}.a), {P}.b)",
+    "lambda {P}: twice(adder({P}.a), 1)",
+    "lambda {P}: scale_all({P}.jets, {P}.a)",
+    "lambda {P}: pick(shift_by({P}.a, 1), adder({P}.b)(2))",
+    "lambda {P}: adder({P}.a)(1) * apply_to(lambda {Q}: {Q} + {P}.b, 5)",
+    "lambda {P}: apply_to(lambda {Q}: adder({Q})(1) * {P}.a, 5)",
+    "lambda {P}: apply_to(lambda {Q}: adder({Q})(1) * {Q}, {P}.b) + {P}.a",
+    "lambda {P}: apply_to(lambda {Q}: shift_by({Q}, {P}.a), {P}.b) - {P}.a",
+    "lambda {P}: twice(lambda {Q}: shift_by({Q}, {P}.a), {P}.b)",
+    "lambda {P}: twice(lambda {Q}: pick(adder({Q})({P}.a), {Q}), {P}.b)",
+    "lambda {P}: sum({P}.jets.Select(lambda {Q}: shift_by({Q}.pt, {P}.a)))",
+    "lambda {P}: sum({P}.jets.Select(lambda {Q}: adder({Q}.pt)({P}.a) + pick({Q}.pt, {P}.b)))",
+    "lambda {P}: sum([adder({Q}.pt)(1) * {P}.a for {Q} in {P}.jets])",
+    "lambda {P}: sum([shift_by({Q}.pt, {P}.b) for {Q} in {P}.jets]) + apply_to(lambda {Q}: {Q} * {P}.a, 2)",
+]
+
+
+def higher_order(ctx):
+    out = []
+    for t in HO_TEMPLATES:
+        two = "{Q}" in t
+        for p in HO_NAMES:
+            for q in (HO_NAMES if two else [""]):
+                if two and q == p:
+                    continue      # the inner binder would hide the passed lambda's parameter the template still uses
+                lam = t.format(P=p, Q=q)
+                out.append(mk(lam, HO_LIB, 1, {"higher-order"}, group="higher-order"))
+                if p in ("x", "a") and (not two or q in ("x", "a", "v")):
+                    out.append(mk(lam, HO_LIB, 2, {"higher-order"}, group="higher-order", scope="l1"))
+    return out
+
+
 def enumerated(ctx):
     out = []
     maxsize = ctx.budget(4, 5)
@@ -304,7 +355,7 @@ def inlinable_left_by_name(case: Case, tree) -> list:
 
 
 def run(ctx):
-    cs = corpus() + second_call_cases() + structured(ctx)
+    cs = corpus() + second_call_cases() + higher_order(ctx) + structured(ctx)
     en = enumerated(ctx)
     cap = ctx.budget(3000, 60000)
     if len(en) > cap:
